@@ -3,6 +3,7 @@
 
 /// Property-tagged assertion: a failure is attributed to property `$p`.
 macro_rules! vassert {
+    // ($p may list several properties: "C01,C05")
     ($p:literal, $cond:expr, $msg:literal) => {
         kani::assert($cond, concat!("[", $p, "] ", $msg))
     };
